@@ -26,12 +26,12 @@ THEOREMS_C22 = [P22 + n for n in ("C22_top_mem", "C22_new_mem", "C22_pseudo_join
                                   "C22_members_exact", "C22_cardinality_exact", "C22_solution_exact", "C22_eval_exact", "C22_min_max_bound", "C22_min_exact", "C22_max_exact_aligned", "C22_signed_min_max_bound",
                                   "widen_unsound", "widen_wrap_unsound", "widen_offset_unsound",
                                   "meet_unaligned_unsound", "max_unaligned_wrong", "C22_meet_aligned", "C22_meet_closed", "meet_nonnormal_unsound",
-                                  "C22_join_aligned", "C22_meet_result_aligned", "widen_breaks_alignment", "C22_eval_signed_exact")] + \
+                                  "C22_join_aligned", "C22_meet_result_aligned", "widen_breaks_alignment", "C22_eval_signed_exact", "C22_meet_two_pieces", "C22_meet_nonwrapping")] + \
                [V + n for n in ("pseudoJoin_sup", "pseudoJoin_WF", "lub_sup", "union_sup", "contain_abs", "overlap_abs", "disjoint_abs",
                                 "isSurrounded_true", "isSurrounded_false", "reduceJoin_sup", "renorm_mem",
                                 "mem_members", "members_nodup", "cardinality_exact", "solution_exact", "multiMeet_int",
                                 "eval_exact", "evalLoop_spec", "min_le", "le_max", "smin_le", "le_smax", "min_attained", "max_attained", "mem_ub", "signedBounds_spec", "unsignedBounds_spec",
                                 "meet_sound", "multiMeet_sound", "multiMeet_proper_sound", "mci_order", "minimalCommonInteger_spec", "mci_spec", "diop_spec", "diopCore_spec", "extendedEuclid_spec",
                                 "geo_C1", "geo_C2", "geo_C3a", "geo_C3b", "geo_C3c", "geo_C4", "geo_C5", "geo_C6", "geo_C7", "geo_none", "aligned_two", "meetFrom_mem",
-                                "pseudoJoin_aligned", "pseudoJoin_ub", "lub_aligned", "union_aligned", "multiMeet_aligned", "meet_aligned", "meetFin_aligned", "eval_signed_exact", "evalLoop_specI", "ti_arc_nostraddle", "ti_arc_A", "ti_arc_B")]
+                                "pseudoJoin_aligned", "pseudoJoin_ub", "lub_aligned", "union_aligned", "multiMeet_aligned", "meet_aligned", "meetFin_aligned", "eval_signed_exact", "evalLoop_specI", "ti_arc_nostraddle", "ti_arc_A", "ti_arc_B", "meet_sound_tp", "multiMeet_sound_tp", "multiMeet_proper_sound_tp", "meet_single_tp", "meet_sound_nowrap")]
 TESTS_C22 = [P22 + "test_join_example"]
